@@ -323,6 +323,9 @@ class StmtMixin:
                 self.exec_block(node.orelse, fr)
             return
         # symbolic iteration: cut with the sidecar invariant
+        if isinstance(it, SymEnumerate):
+            self.sym_loop(node, fr, it.seq, enum_start=it.start)
+            return
         sv = self.seq_value(it)
         self.sym_loop(node, fr, sv)
 
@@ -351,12 +354,14 @@ class StmtMixin:
             return
         self.sym_loop(node, fr, None, spec)
 
-    def sym_loop(self, node, fr, sv, spec=None):
+    def sym_loop(self, node, fr, sv, spec=None, enum_start=None):
         ordn = self.loop_ordinal(fr, node)
         spec = spec or self.env.loop_spec(fr.qualname, ordn)
         if spec is None:
             raise Unsupported('loop #%d of %s (line %d) iterates a symbolic collection '
                               'and has no invariant' % (ordn, fr.qualname, node.lineno))
+        if spec.get('inv') is None:
+            spec = dict(spec, inv=_true_inv)
         tag = '%s#loop%d' % (fr.qualname, ordn)
         is_for = sv is not None
         n = smt.SeqLen(sv.t) if is_for else None
@@ -389,7 +394,12 @@ class StmtMixin:
                 i = self.fresh_term('_i@%s' % tag, INT, False)
                 self.assume(smt.And(smt.Le(smt.IntC(0), i), smt.Lt(i, n)))
                 self.assume(inv(i, 'assume'))
-                self.assign(node.target, self.value_of_sort(smt.SeqNth(sv.t, i), sv.ety), fr)
+                elem = self.value_of_sort(smt.SeqNth(sv.t, i), sv.ety)
+                if enum_start is not None:
+                    elem = (SInt(smt.Add(i, self.int_term(enum_start))), elem)
+                self.assign(node.target, elem, fr)
+                fr.locals['_i'] = SInt(i)
+                fr.locals['_seq'] = sv
             else:
                 i = None
                 self.assume(inv(None, 'assume'))
@@ -440,6 +450,10 @@ class StmtMixin:
                 self.heap[v.oid] = self.havoc_like(p, base)
                 return v
         raise Unsupported('havoc of %r (%s): give the loop variable a type' % (v, base))
+
+
+def _true_inv():
+    return True
 
 
 def _as_load(node):
